@@ -326,3 +326,272 @@ Proof.
   - cbn [repeat app]. unfold spike_times in *. cbn [length]. rewrite <- cons_seq. cbn [filter nth].
     rewrite <- seq_shift, filter_map_swap'. cbn [nth]. rewrite IH, map_map. apply map_ext. intros; lia.
 Qed.
+
+Lemma skipn_plus1 {A} : forall k (l : list A), skipn (k + 1) l = skipn 1 (skipn k l).
+Proof.
+  induction k as [|k IH]; intros l; [reflexivity|]. destruct l as [|x l]; [reflexivity|].
+  cbn [Nat.add skipn]. apply IH.
+Qed.
+Lemma V_skipn1_app_false m d a j l : V m d a (skipn 1 (l ++ repeat false j)) = V m d a (skipn 1 l).
+Proof.
+  destruct l as [|x l]; cbn [app skipn].
+  - destruct j as [|j]; [reflexivity|]. cbn [repeat skipn]. apply (V_app_false m d a j []).
+  - apply V_app_false.
+Qed.
+
+(* ------------------------------------------------------------------ what the trainers read *)
+Section Reads.
+Variable c : config RN.
+Variable k : nat.
+Hypothesis Hsyn : delay_truthy RN c = true -> (Z.of_nat k < sz_syn RN c)%Z.
+Local Notation kf := (keff c k).
+Local Notation oP := (obsP c k).
+
+Lemma del_fwd_true : del_fwd RN c = true -> del_reg RN c = true /\ delay_truthy RN c = true.
+Proof.
+  unfold del_fwd, del_reg, delay_truthy, has_delay. destruct (delay_aware RN c), (c_delayed RN c), (c_delayedby RN c); cbn; intros H; try discriminate; auto.
+Qed.
+Lemma del_reg_not_fwd : del_reg RN c = true -> del_fwd RN c = false -> delay_truthy RN c = false.
+Proof.
+  unfold del_fwd, del_reg. destruct (delay_aware RN c), (c_delayed RN c); cbn; intros H1 H2; try discriminate; auto.
+Qed.
+
+(* x_pre / x_a: view(selector) in the delayed mode, peek otherwise *)
+Lemma read_trace m d a sz r :
+  (del_fwd RN c = true -> (Z.of_nat k < sz)%Z) ->
+  (if del_fwd RN c then rd 0 sz (tvals m d a (oP r)) k else hd 0 (tvals m d a (oP r)))
+  = V m d a (skipn kf r).
+Proof.
+  intros Hsz. unfold obsP, keff. destruct (del_fwd RN c) eqn:Ef.
+  - destruct (del_fwd_true Ef) as [-> ->]. rewrite rd_small by (apply Hsz; reflexivity). apply nth_tvals.
+  - destruct (del_reg RN c) eqn:Er.
+    + rewrite (del_reg_not_fwd Er Ef). reflexivity.
+    + rewrite dlist_skipn. apply V_app_false.
+Qed.
+(* i_pre / x: the spike indicator *)
+Lemma read_spike sz r :
+  (del_fwd RN c = true -> (Z.of_nat k < sz)%Z) ->
+  (if del_fwd RN c then rd false sz (oP r) k else hd false (oP r)) = nth kf r false.
+Proof.
+  intros Hsz. unfold obsP, keff. destruct (del_fwd RN c) eqn:Ef.
+  - destruct (del_fwd_true Ef) as [-> ->]. apply rd_small. apply Hsz; reflexivity.
+  - destruct (del_reg RN c) eqn:Er.
+    + rewrite (del_reg_not_fwd Er Ef). destruct r; reflexivity.
+    + destruct r as [|x r]; [destruct (if delay_truthy RN c then k else 0%nat); reflexivity|reflexivity].
+Qed.
+(* x_b: the slow presynaptic trace one step earlier (select(offset=2) / read(2)) *)
+Lemma read_slow m d a sz r :
+  (del_fwd RN c = true -> (Z.of_nat (k + 1) < sz)%Z) -> (1 < sz)%Z ->
+  (if del_fwd RN c then rd 0 sz (tvals m d a (oP r)) (k + 1) else rd 0 sz (tvals m d a (oP r)) 1)
+  = V m d a (skipn 1 (skipn kf r)).
+Proof.
+  intros Hsz H1. unfold obsP, keff. destruct (del_fwd RN c) eqn:Ef.
+  - destruct (del_fwd_true Ef) as [-> ->]. rewrite rd_small by (apply Hsz; reflexivity).
+    rewrite nth_tvals, skipn_plus1. reflexivity.
+  - rewrite rd_small by exact H1. rewrite nth_tvals. destruct (del_reg RN c) eqn:Er.
+    + rewrite (del_reg_not_fwd Er Ef). reflexivity.
+    + rewrite dlist_skipn. apply V_skipn1_app_false.
+Qed.
+End Reads.
+
+(* ------------------------------------------------------------------ routing and reductions *)
+Definition sgn (x : R) : R := if nonneg RN x then 1 else -1.
+Lemma sgn_abs x : sgn x * Rabs x = x.
+Proof.
+  unfold sgn, nonneg, geb. rn_simpl. rcases.
+  - rewrite Rabs_right by lra. lra.
+  - rewrite Rabs_left by lra. lra.
+Qed.
+Lemma sgn_abs_mul x b p : sgn x * (b * (Rabs x * p)) = x * (b * p).
+Proof. transitivity ((sgn x * Rabs x) * (b * p)); [ring|rewrite sgn_abs; reflexivity]. Qed.
+Lemma net_route bp bq x y :
+  net (route RN bp bq x y) = (if bp then 1 else -1) * x + (if bq then 1 else -1) * y.
+Proof. destruct bp, bq; unfold net, route; cbn [fst snd ov]; rn_simpl; lra. Qed.
+Lemma reduce_single r x : reduce RN r [x] = x.
+Proof.
+  destruct r; cbn [reduce tsum tmaxl length]; rn_simpl; try lra.
+  change (IZR (Z.of_nat 1)) with 1. unfold Rdiv. rewrite Rinv_1. lra.
+Qed.
+
+Section Steps.
+Variable c : config RN.
+Variable k : nat.
+Hypothesis Hsyn : delay_truthy RN c = true -> (Z.of_nat k < sz_syn RN c)%Z.
+Hypothesis Hpre : del_fwd RN c = true -> (Z.of_nat k < sz_tr_pre RN c)%Z /\ (Z.of_nat k < sz_spike_pre RN c)%Z.
+Local Notation kf := (keff c k).
+Local Notation dt := (c_dt RN c).
+Local Notation m := (c_mode RN c).
+
+(* single sample, no signal: the net update is the signed sum of the two partial updates *)
+Lemma net_forward_none s :
+  net (forward RN c k (SigNone RN) [s])
+  = sgn (c_lr_post RN c) * fst (partials RN c k s) + sgn (c_lr_pre RN c) * snd (partials RN c k s).
+Proof.
+  unfold forward. cbn [map]. rewrite !reduce_single, net_route. reflexivity.
+Qed.
+Lemma net_forward_scalar s sv scale :
+  net (forward RN c k (SigScalar RN sv scale) [s])
+  = sgn (c_lr_post RN c * sv) * (fst (partials RN c k s) * Rabs (sv * scale))
+    + sgn (c_lr_pre RN c * sv) * (snd (partials RN c k s) * Rabs (sv * scale)).
+Proof.
+  unfold forward. cbn [map]. rewrite !reduce_single, net_route. reflexivity.
+Qed.
+
+(* the traces and indicators at the current step, for a history h0 ++ [pq] given oldest first *)
+Definition Ptr (h : list (bool * bool)) : list bool := shift kf (map fst h).   (* delayed presynaptic train *)
+Definition Qtr (h : list (bool * bool)) : list bool := map snd h.               (* postsynaptic train *)
+
+Lemma Ptr_snoc h0 pq : Ptr (h0 ++ [pq]) = Ptr h0 ++ [nth kf (rev (map fst (h0 ++ [pq]))) false].
+Proof. unfold Ptr. rewrite map_app. cbn [map]. rewrite shift_snoc, rev_app_distr. reflexivity. Qed.
+Lemma Ptr_length h : length (Ptr h) = length h.
+Proof. unfold Ptr. rewrite shift_length, map_length. reflexivity. Qed.
+Lemma Qtr_snoc h0 pq : Qtr (h0 ++ [pq]) = Qtr h0 ++ [snd pq].
+Proof. unfold Qtr. rewrite map_app. reflexivity. Qed.
+Lemma Qtr_length h : length (Qtr h) = length h.
+Proof. apply map_length. Qed.
+
+Lemma pre_trace_now tau a h0 pq :
+  V m (exp (- dt / tau)) a (skipn kf (rev (map fst (h0 ++ [pq]))))
+  = a * partner_sum m dt tau (Ptr (h0 ++ [pq])) (length h0).
+Proof.
+  rewrite <- (V_app_false _ _ _ (Nat.min kf (length (rev (map fst (h0 ++ [pq])))))), <- dlist_skipn.
+  rewrite <- (rev_involutive (dlist _ _)), <- shift_rev_dlist. fold (Ptr (h0 ++ [pq])).
+  rewrite Ptr_snoc. rewrite trace_closed, Ptr_length. reflexivity.
+Qed.
+Lemma post_trace_now tau a h0 pq :
+  V m (exp (- dt / tau)) a (rev (map snd (h0 ++ [pq])))
+  = a * partner_sum m dt tau (Qtr (h0 ++ [pq])) (length h0).
+Proof. fold (Qtr (h0 ++ [pq])). rewrite Qtr_snoc, trace_closed, Qtr_length. reflexivity. Qed.
+Lemma pre_spike_now h0 pq :
+  nth kf (rev (map fst (h0 ++ [pq]))) false = nth (length h0) (Ptr (h0 ++ [pq])) false.
+Proof. rewrite Ptr_snoc. replace (length h0) with (length (Ptr h0)) by apply Ptr_length. rewrite nth_middle. reflexivity. Qed.
+Lemma post_spike_now h0 pq :
+  hd false (rev (map snd (h0 ++ [pq]))) = nth (length h0) (Qtr (h0 ++ [pq])) false.
+Proof.
+  unfold Qtr. rewrite map_app. cbn [map]. replace (length h0) with (length (map snd h0)) by apply map_length.
+  rewrite nth_middle, rev_app_distr. reflexivity.
+Qed.
+
+(* the contribution of step t documented for pair-based STDP:
+   eta_post [post spike at t] (sum over its partners) + eta_pre [pre spike arriving at t] (sum over its partners) *)
+Definition contrib (h : list (bool * bool)) (t : nat) : R :=
+  c_lr_post RN c * (b2r (nth t (Qtr h) false) * partner_sum m dt (c_tc_pre RN c) (Ptr h) t)
+  + c_lr_pre RN c * (b2r (nth t (Ptr h) false) * partner_sum m dt (c_tc_post RN c) (Qtr h) t).
+
+Lemma partials_stdp h0 pq :
+  c_trainer RN c = STDP \/ c_trainer RN c = MSTDP \/ c_trainer RN c = StableSTDP ->
+  let h := h0 ++ [pq] in
+  partials RN c k (state_of c k (rev h))
+  = (b2r (nth (length h0) (Qtr h) false) * (Rabs (c_lr_post RN c) * partner_sum m dt (c_tc_pre RN c) (Ptr h) (length h0)),
+     b2r (nth (length h0) (Ptr h) false) * (Rabs (c_lr_pre RN c) * partner_sum m dt (c_tc_post RN c) (Qtr h) (length h0))).
+Proof.
+  intros Ht h.
+  unfold partials. destruct Ht as [E | [E | E]]; rewrite E; cbv zeta;
+  rewrite st_tr_pre, st_tr_post, st_spike_pre, st_spike_post by exact Hsyn;
+  rewrite (read_trace c k) by (intros E'; apply Hpre; exact E');
+  rewrite (read_spike c k) by (intros E'; apply Hpre; exact E');
+  rewrite !map_rev;
+  change (hd (zero RN) (tvals (mo c) (d_post c) (amp_post RN c) (rev (map snd h))))
+    with (V (mo c) (d_post c) (amp_post RN c) (rev (map snd h)));
+  unfold mo, d_pre, d_post, h; rewrite pre_trace_now, post_trace_now, pre_spike_now, post_spike_now;
+  unfold amp_pre, amp_post, is_stable; rewrite E, !b2t_RN; rn_simpl; f_equal. Show. all: ring.
+Qed.
+End Steps.
+
+(* ------------------------------------------------------------------ sums over steps, accumulators *)
+Lemma sum_steps_ext n f g : (forall t, (t < n)%nat -> f t = g t) -> sum_steps n f = sum_steps n g.
+Proof. induction n as [|n IH]; intros H; cbn; [reflexivity|]. rewrite IH, H by (intros; try apply H; lia). reflexivity. Qed.
+Lemma sum_steps_plus n f g : sum_steps n (fun t => f t + g t) = sum_steps n f + sum_steps n g.
+Proof. induction n as [|n IH]; cbn; [lra|rewrite IH; lra]. Qed.
+Lemma sum_steps_scale n a f : sum_steps n (fun t => a * f t) = a * sum_steps n f.
+Proof. induction n as [|n IH]; cbn; [lra|rewrite IH; lra]. Qed.
+(* a sum over the spike times of a train = a sum over all steps weighted by the spike indicator *)
+Lemma sum_over_spike_times l f :
+  sum_over (spike_times l) f = sum_steps (length l) (fun t => b2r (nth t l false) * f t).
+Proof.
+  induction l as [|b l IH] using rev_ind; [reflexivity|].
+  rewrite spike_times_snoc, sum_over_app, IH, app_length. cbn [length]. rewrite Nat.add_1_r. cbn [sum_steps].
+  rewrite nth_middle. f_equal.
+  - apply sum_steps_ext. intros t Ht. rewrite app_nth1 by exact Ht. reflexivity.
+  - destruct b; cbn; lra.
+Qed.
+
+Lemma sum_net_app a b : sum_net (a ++ b) = sum_net a + sum_net b.
+Proof. induction a as [|o a IH]; cbn; [lra|rewrite IH; lra]. Qed.
+Lemma ov_acc_add a x : ov (acc_add RN a x) = ov a + ov x.
+Proof. destruct a, x; cbn; rn_simpl; lra. Qed.
+Lemma ov_acc_update a : ov (acc_update RN a) = ov (fst a) - ov (snd a).
+Proof. destruct a as [[p|] [n|]]; cbn; rn_simpl; lra. Qed.
+Lemma last_cons {A} (x d : A) l : last (x :: l) d = last l x.
+Proof.
+  revert x d. induction l as [|y l IH]; intros x d; [reflexivity|].
+  change (last (x :: y :: l) d) with (last (y :: l) d). rewrite !IH. reflexivity.
+Qed.
+Lemma net_accumulate outs : forall a,
+  net (last (accumulate RN a outs) a) = net a + sum_net outs.
+Proof.
+  induction outs as [|o tl IH]; intros a; [cbn [accumulate last sum_net]; rewrite Rplus_0_r; reflexivity|].
+  cbn [accumulate sum_net]. rewrite last_cons, IH. unfold net. cbn [fst snd]. rewrite !ov_acc_add. rn_simpl. lra.
+Qed.
+(* the weight change applied by Accumulator.update (0 when there is no update) is the sum of the net parts *)
+Lemma weight_change_sum outs : ov (acc_update RN (final_acc RN outs)) = sum_net outs.
+Proof.
+  rewrite ov_acc_update. unfold final_acc. pose proof (net_accumulate outs (None, None)) as H.
+  unfold net in H. cbn [fst snd ov] in H. rn_simpl. lra.
+Qed.
+
+Definition nosig (h : list (bool * bool)) : list ((bool * bool) * signal RN) := map (fun pq => (pq, SigNone RN)) h.
+
+Section Totals.
+Variable c : config RN.
+Variable k : nat.
+Hypothesis Hsyn : delay_truthy RN c = true -> (Z.of_nat k < sz_syn RN c)%Z.
+Hypothesis Hpre : del_fwd RN c = true -> (Z.of_nat k < sz_tr_pre RN c)%Z /\ (Z.of_nat k < sz_spike_pre RN c)%Z.
+Local Notation dt := (c_dt RN c).
+Local Notation m := (c_mode RN c).
+
+Lemma outs_from_snoc hs x : forall hp,
+  outs_from c k hp (hs ++ [x])
+  = outs_from c k hp hs ++ [forward RN c k (snd x) [state_of c k (fst x :: rev (map fst hs) ++ hp)]].
+Proof.
+  induction hs as [|y tl IH]; intros hp; [reflexivity|].
+  cbn [app outs_from map rev]. rewrite IH, <- app_assoc. reflexivity.
+Qed.
+Lemma outs_from_snoc0 hs x :
+  outs_from c k [] (hs ++ [x])
+  = outs_from c k [] hs ++ [forward RN c k (snd x) [state_of c k (rev (map fst (hs ++ [x])))]].
+Proof. rewrite outs_from_snoc, app_nil_r, map_app, rev_app_distr. reflexivity. Qed.
+Lemma run_single hs : run RN c k (init_batch RN 1) (inps1 hs) = outs_from c k [] hs.
+Proof. apply (run_outs_from c k hs []). Qed.
+
+Lemma contrib_prefix h pq t : (t < length h)%nat -> contrib c k (h ++ [pq]) t = contrib c k h t.
+Proof.
+  intros Ht. unfold contrib. rewrite Ptr_snoc, Qtr_snoc.
+  rewrite !app_nth1 by (rewrite ?Ptr_length, ?Qtr_length; exact Ht).
+  rewrite !partner_sum_snoc by (rewrite ?Ptr_length, ?Qtr_length; exact Ht). reflexivity.
+Qed.
+(* the documented per-step contributions add up to the two sums over spike pairs *)
+Lemma contrib_pairsum h :
+  sum_steps (length h) (contrib c k h)
+  = c_lr_post RN c * pairsum m dt (c_tc_pre RN c) (fun _ => 1) (Qtr h) (Ptr c k h)
+    + c_lr_pre RN c * pairsum m dt (c_tc_post RN c) (fun _ => 1) (Ptr c k h) (Qtr h).
+Proof.
+  unfold contrib, pairsum. rewrite !sum_over_spike_times, Ptr_length, Qtr_length.
+  rewrite sum_steps_plus, !sum_steps_scale. f_equal; f_equal; apply sum_steps_ext; intros; lra.
+Qed.
+
+(* ---- STDP ---- *)
+Lemma stdp_steps h : c_trainer RN c = STDP \/ c_trainer RN c = StableSTDP ->
+  sum_net (outs_from c k [] (nosig h)) = sum_steps (length h) (contrib c k h).
+Proof.
+  intros Ht.
+  assert (Ht' : c_trainer RN c = STDP \/ c_trainer RN c = MSTDP \/ c_trainer RN c = StableSTDP) by (destruct Ht; auto). induction h as [|pq h IH] using rev_ind; [reflexivity|].
+  unfold nosig in *. rewrite map_app. cbn [map]. rewrite outs_from_snoc0, sum_net_app, IH. cbn [sum_net snd].
+  rewrite app_length. cbn [length]. rewrite Nat.add_1_r. cbn [sum_steps].
+  rewrite (sum_steps_ext _ (contrib c k (h ++ [pq])) (contrib c k h)) by (intros; apply contrib_prefix; assumption).
+  rewrite (map_app fst), map_map. cbn [map fst]. rewrite map_id.
+  rewrite net_forward_none, (partials_stdp c k Hsyn Hpre h pq Ht'). cbn [fst snd].
+  unfold contrib.
+  rewrite !sgn_abs_mul. lra.
+Qed.
+End Totals.
